@@ -6,9 +6,14 @@ CLAIM = ('NearestNeighborsLinear<int> and NearestNeighborsSqrtApprox<int> (real 
          'run from ARBITRARY contents of N elements (symbolic ids with duplicates) under EVERY non-negative integer-valued distance table: '
          'add / add(vector) / remove / clear / list keep exactly the right multiset (remove takes out one copy), nearest returns a member at '
          'the minimum distance; SqrtApprox: nearest returns a member and keeps its scan offset in range. (nearestK/nearestR harnesses exist but '
-         'are thorough-tier attempts: std::sort over a symbolic-length range was undecided.)')
-OUT = ('nearestK/nearestR of the linear structures (undecided), both GNAT variants (tree construction with GreedyKCenters/Eigen, pruning by range tables, removal cache, rebuilds) - not encoded in this '
-       'revision; N above the bound; non-integer distances')
+         'are thorough-tier attempts: std::sort over a symbolic-length range was undecided.) '
+         'GNAT (thread-safe variant, real Node::nearestR / Node::nearestK / Node::add incl. std::priority_queue and std::function): inductive steps on ONE tree node from an ARBITRARY node state '
+         'satisfying the invariant "range and radius tables are conservative", under EVERY metric with integer distances in [0,7]: a visit never loses an element of the answer (a pivot within '
+         'the radius / closer than the k-th neighbour is reported, a subtree holding such an element is queued - boundary cases included), reports/queues nothing twice, keeps the '
+         'queue a heap; add() re-establishes the invariant for the new element and only widens tables. By induction over visits and insertions this is exactness of nearestR/nearestK on '
+         'trees of any shape built by add() without removals.')
+OUT = ('nearestK/nearestR of the linear structures (undecided); GNAT: split()/k-centers pivot selection (Eigen), the removal cache, rebuilds and remove(), the outer query loops '
+       '(nearestKInternal/nearestRInternal queue draining, postprocessing), the NoThreadSafety variant, nodes with more than 2 children in the quick tier (3 in thorough); N above the bound; non-integer distances')
 ASSUMPTIONS = ['std::vector is the bounded inline-storage model (vt/stdmodel/vec/vector)', 'distance values are integers in [0,7] as doubles']
 
 
@@ -22,10 +27,18 @@ def queries(tier):
                 qs.append(Query('%s_%s[n=%d]' % ('sqrtapprox' if sq else 'linear', e, n), 'C10_linear.cpp', 'harness_' + e,
                                 defines={'N': n, 'U': 4, 'SQRT': sq, 'VT_VEC_CAP': n + 4}, stdmodel=('vec',), unwind=(n + 6) if e in ('nearest_k', 'nearest_r') else max(n, 4) * 4 + 8, timeout=to, checks='none',
                                 bound='N=%d stored elements over 4 ids, every distance table with entries in [0,7]' % n))
-    # GNAT: inductive steps on one tree node (C10_gnat.cpp)
-    for sz in ([2, 3] if tier == 'quick' else [2, 3, 4]):
+    # GNAT: inductive steps on one tree node (C10_gnat.cpp); rotation offset, the subtree of the witness element and the
+    # number of neighbours already known are case-split
+    for sz in ([2] if tier == 'quick' else [2, 3]):
         for e, kn in (('visit_r', 0), ('visit_k', 1), ('visit_k', 2), ('add', 0)):
-            if tier == 'quick' and sz == 3 and e == 'visit_k' and kn == 1: continue
-            qs.append(Query('gnat_%s[children=%d%s]' % (e, sz, ',k=%d' % kn if kn else ''), 'C10_gnat.cpp', 'harness_' + e, defines={'SZ': sz, 'KNN': kn or 2}, cxxflags=RNG_ENV, new_cap=64, unwind=sz + 5, timeout=to, checks='none',
-                            bound='one node with %d children, every metric with integer distances in [0,7] on query, pivots and one subtree element, every conservative range/radius table with entries in [0,15]%s' % (sz, ', k=%d with 0..k earlier neighbours' % kn if kn else '')))
+            for off in range(sz):
+                for js in range(sz):
+                    if e == 'add' and (off or js): continue
+                    for have in (range(kn + 1) if e == 'visit_k' else [0]):
+                        if tier == 'quick' and e == 'visit_k' and kn == 2 and have == 1 and off != js: continue
+                        d = {'SZ': sz, 'KNN': kn or 2, 'OFFSET': off, 'JSUB': js}
+                        if e == 'visit_k': d['HAVE'] = have
+                        qs.append(Query('gnat_%s[children=%d%s,offset=%d,subtree=%d%s]' % (e, sz, ',k=%d' % kn if kn else '', off, js, ',have=%d' % have if e == 'visit_k' else ''),
+                                        'C10_gnat.cpp', 'harness_' + e, defines=d, cxxflags=RNG_ENV, new_cap=64, unwind=sz + 3, timeout=(2 * to if e == 'add' else to), mem_gb=20, checks='none',
+                                        bound='one node with %d children (child order offset %d, witness element in subtree %d), every metric with integer distances in [0,7] on query, pivots and one subtree element, every conservative range/radius table with entries in [0,15]%s' % (sz, off, js, ', k=%d with %d earlier neighbours' % (kn, have) if kn else '')))
     return qs
